@@ -324,6 +324,7 @@ func report(p *Program, id string, cfg *PropCfg, res *checkResult, tier string, 
 	}
 	undec := loadUndecided()
 	var undecidedNow []string
+	var skippedObls []*Obligation
 	total, discharged := 0, 0
 	bySolver := map[string]int{}
 	solverSecs := 0.0
@@ -374,6 +375,7 @@ func report(p *Program, id string, cfg *PropCfg, res *checkResult, tier string, 
 			if o.Status == "skipped" {
 				// tried with a reduced budget only, after other obligations of this run had already ended undischarged
 				fmt.Printf("SKIPPED: property=%s %s (reduced budget after earlier violations in this run; neither counted nor reported as a violation)\n", id, o.Name)
+				skippedObls = append(skippedObls, o)
 				continue
 			}
 			total++
@@ -410,6 +412,16 @@ func report(p *Program, id string, cfg *PropCfg, res *checkResult, tier string, 
 	for _, o := range res.structural {
 		total++
 		failed = append(failed, o)
+	}
+	if len(failed) == 0 && len(skippedObls) > 0 {
+		// no violation stands, yet some obligations only had the reduced budget: they are undischarged obligations of this
+		// run like any other (this cannot happen unless the obligations that triggered the reduction were discharged or
+		// excused afterwards; it is a safety net, not a path the unchanged tree takes)
+		for _, o := range skippedObls {
+			total++
+			o.Status = "unknown"
+			failed = append(failed, o)
+		}
 	}
 	if total == 0 {
 		// a check that generates nothing proves nothing
